@@ -85,7 +85,8 @@ OpResult World::op_make_face(const Op &op) {
     event("make_face", u64(source), u64(f.options), u64(ctor));
     if (source == 1) {
         f.file = new FileImage();
-        if (!any_content && !any_override && !any_synth) f.file->bytes = fi->file;
+        if (!any_content && !any_override && !any_synth && op.arg(5) == 0) f.file->bytes = fi->file;
+        else if (!any_content && op.arg(5) != 0) f.file->bytes = build_sfnt_layout(f.store->tables, u64(op.arg(5)));
         else {
             std::map<u32, Bytes> t = f.store->tables;
             for (auto &ft : op.faults) {
